@@ -16,3 +16,28 @@ Fixpoint c05_cmd_from (l : list cmd_svc) (h : list step_obs) : bool :=
   end.
 
 Definition c05_cmd_ok (h : list step_obs) : bool := c05_cmd_from [] h.
+
+(** ** "is rejected" reads both ways
+
+    "A deploy that claims a pair owned by a different service is rejected with an error" — and only such a deploy is
+    refused for that reason: a deploy answered "host settings conflict with another service" must claim a pair that
+    another service owns in the commanded table as it stood before the command, and a deploy that succeeded must not.
+    (The other reasons a deploy can fail for — targets, certificate, pages, wildcard with automatic TLS — are none of
+    this monitor's business.) *)
+Definition cmd_conflicts (l : list cmd_svc) (name : str) (op : sopts) : bool :=
+  conflicts (cmd_table l) name (normalize_hosts (o_hosts op)) (normalize_prefixes (o_prefixes op)).
+
+Definition refusal_step_ok (l : list cmd_svc) (o : step_obs) : bool :=
+  match so_cmd o, so_result o with
+  | Deploy n op _ _, OErr EHostInUse => cmd_conflicts l n op
+  | Deploy n op _ _, OOk => negb (cmd_conflicts l n op)
+  | _, _ => true
+  end.
+
+Fixpoint c05_refusal_from (l : list cmd_svc) (h : list step_obs) : bool :=
+  match h with
+  | [] => true
+  | o :: r => refusal_step_ok l o && c05_refusal_from (cmd_apply l o) r
+  end.
+
+Definition c05_refusal_ok (h : list step_obs) : bool := c05_refusal_from [] h.
